@@ -882,6 +882,67 @@ func TestConcurrentRunsV2(t *testing.T) {
 	evid.Exhaustive("eight overlapping runs of one loaded v2 script x repetitions", n)
 }
 
+// TestBreakAndPostClauseV2: a three-clause loop left through break does not evaluate its post clause again; continue
+// does evaluate it; what the post clause does is visible afterwards (a counter declared before the loop, a probe, a
+// failing expression).
+func TestBreakAndPostClauseV2(t *testing.T) {
+	posts := []func() *gen.Node{
+		func() *gen.Node { return gen.NSet("i", gen.NBin("+", id("i"), i64(1))) },
+		func() *gen.Node { return gen.NSet("i", gen.NCall("pval", gen.NBin("+", id("i"), i64(1)))) },
+		func() *gen.Node { return gen.NAssign("+=", []*gen.Node{id("i")}, []*gen.Node{i64(1)}) },
+		func() *gen.Node {
+			return gen.NSet("i", gen.NBin("+", id("i"), gen.NBin("/", i64(1), gen.NBin("-", i64(2), id("i")))))
+		}, // fails when i == 2
+	}
+	bodies := []func() []*gen.Node{
+		func() []*gen.Node {
+			return []*gen.Node{gen.NIf([]*gen.Node{gen.NBin("==", id("i"), i64(2))}, [][]*gen.Node{{gen.NBreak()}}, nil, false), gen.NCall("probe", str("pass"), id("i"))}
+		},
+		func() []*gen.Node { return []*gen.Node{gen.NBreak()} },
+		func() []*gen.Node {
+			return []*gen.Node{gen.NCall("probe", str("pass"), id("i")), gen.NIf([]*gen.Node{gen.NBin("==", id("i"), i64(1))}, [][]*gen.Node{{gen.NContinue()}}, nil, false), gen.NIf([]*gen.Node{gen.NBin(">=", id("i"), i64(2))}, [][]*gen.Node{{gen.NIf([]*gen.Node{gen.NBool(true)}, [][]*gen.Node{{gen.NBreak()}}, nil, false)}}, nil, false), gen.NSet("acc", gen.NBin("+", id("acc"), id("i")))}
+		},
+		func() []*gen.Node {
+			return []*gen.Node{gen.NForIn("e", gen.NList(i64(1), i64(2)), []*gen.Node{gen.NIf([]*gen.Node{gen.NBin("==", id("e"), i64(2))}, [][]*gen.Node{{gen.NBreak()}}, nil, false)}), gen.NIf([]*gen.Node{gen.NBin("==", id("i"), i64(1))}, [][]*gen.Node{{gen.NBreak()}}, nil, false)}
+		},
+	}
+	n := 0
+	for pi, post := range posts {
+		for bi, body := range bodies {
+			for _, outside := range []bool{true, false} {
+				var prog []*gen.Node
+				if outside {
+					prog = []*gen.Node{gen.NSet("i", i64(0)), gen.NSet("acc", i64(0)), gen.NFor(nil, gen.NBin("<", id("i"), i64(10)), post(), body()), gen.NCall("probe", str("after"), id("i"), id("acc"))}
+				} else {
+					prog = []*gen.Node{gen.NSet("acc", i64(0)), gen.NFor(gen.NSet("i", i64(0)), gen.NBin("<", id("i"), i64(10)), post(), body()), gen.NCall("probe", str("after"), id("acc"))}
+				}
+				judge(t, "break-post", sem.NewCase(gen.FixAll(prog)), fmt.Sprintf("breakpost/%d/%d/%v", pi, bi, outside), true, "break-and-post-clause-v2")
+				n++
+			}
+		}
+	}
+	evid.Exhaustive("post clause x body with break / continue x counter declared before or in the loop", n)
+}
+
+// TestBigIntComparisonsV2: comparisons of integers are exact at every magnitude; integers that round to the same
+// float64 are still different integers.
+func TestBigIntComparisonsV2(t *testing.T) {
+	pairs := [][2]int64{{9007199254740993, 9007199254740992}, {9223372036854775807, 9223372036854775806}, {-9007199254740993, -9007199254740992}, {9007199254740992, 9007199254740992}, {1600000000000000001, 1600000000000000000}, {-9223372036854775807, -9223372036854775806}, {5, 5}, {3, 4}}
+	n := 0
+	for pi, pr := range pairs {
+		for _, op := range []string{"==", "!=", "<", "<=", ">", ">="} {
+			prog := []*gen.Node{gen.NSet("a", i64(pr[0])), gen.NSet("b", i64(pr[1])),
+				gen.NCall("probe", str("lit"), gen.NBin(op, i64(pr[0]), i64(pr[1])), gen.NBin(op, i64(pr[1]), i64(pr[0]))),
+				gen.NCall("probe", str("var"), gen.NBin(op, id("a"), id("b")), gen.NBin(op, id("b"), id("a")), gen.NBin(op, id("a"), id("a"))),
+				gen.NIf([]*gen.Node{gen.NBin(op, id("a"), id("b"))}, [][]*gen.Node{{gen.NCall("probe", str("then"))}}, []*gen.Node{gen.NCall("probe", str("else"))}, true),
+				gen.NCall("probe", str("in"), gen.NBin("in", id("a"), gen.NList(id("b"))), gen.NBin("in", id("a"), gen.NList(id("b"), id("a"))))}
+			judge(t, "bigint-cmp", sem.NewCase(gen.FixAll(prog)), fmt.Sprintf("bigintcmp/%d/%s", pi, op), true, "big-int-comparisons-v2")
+			n++
+		}
+	}
+	evid.Exhaustive("integer pair (neighbours beyond 2^53 and at the int64 limits) x comparison operator", n)
+}
+
 func TestFixedDialect(t *testing.T) {
 	cases := [][]*gen.Node{
 		{gen.NCall("probe", str("x"), id("undefined_name"))},
